@@ -540,6 +540,22 @@ def rule_g(ctx, ix):
                     return any(isinstance(x, ast.Call) and isinstance(x.func, ast.Attribute) and unparse(x.func).startswith(s_ + '.')
                                and not unparse(x.func).startswith(s_ + '.layers') for x in ast.walk(st))
                 for fld, (tests, sts) in sorted(dets.items()):
+                    # the remembered value covers what the set-up uses: not a filtered selection of a field the set-up reads whole
+                    for st in sts:
+                        ev = expand_locals(f.node, st.value)
+                        for comp in [x for x in ast.walk(ev) if isinstance(x, (ast.ListComp, ast.GeneratorExp, ast.SetComp)) and x.generators[0].ifs]:
+                            src = unparse(comp.generators[0].iter)
+                            if not src.startswith(s_ + '.'):
+                                continue
+                            inside = {id(x) for x in ast.walk(comp)}
+                            whole = [x for x in ast.walk(f.node) if isinstance(x, ast.Attribute) and unparse(x) == src and id(x) not in inside
+                                     and not any(id(x) in {id(y) for y in ast.walk(d_)} for d_ in ast.walk(f.node)
+                                                 if isinstance(d_, (ast.ListComp, ast.GeneratorExp, ast.SetComp)) and d_.generators[0].ifs
+                                                 and unparse(d_.generators[0].iter) == src)]
+                            ctx.ob(R, '%s %s selection' % (f.construct, fld), 'the remembered value is not a selection of a field the set-up uses whole', not whole,
+                                   detail='%s remembers (and compares) only a selection of `%s` (`%s`) but sets up from the whole of it: a change '
+                                          'among the entries the selection leaves out is never noticed, and the set-up is skipped although its '
+                                          'input changed' % (f.construct, src, unparse(comp)[:90]), where=where(f, st))
                     n += 1
                     mine = {cfg.node_for(st) for st in sts}
                     others = all_stores - mine
